@@ -165,11 +165,21 @@ func (w *W) Unguard() {
 }
 
 func (w *W) watchdog() {
+	lastBeat := time.Now()
 	for {
 		time.Sleep(500 * time.Millisecond)
 		w.guardMu.Lock()
 		c, start, limit := w.guardCase, w.guardStart, w.guardLimit
 		w.guardMu.Unlock()
+		if c != nil && time.Since(start) < limit && time.Since(lastBeat) > 10*time.Second {
+			// a guarded case within its own horizon is progress as far as the driver's no-progress limit goes: that
+			// limit is for workers that are stuck outside a guard, and must not cut a long case short on a slow machine
+			lastBeat = time.Now()
+			w.mu.Lock()
+			w.out.WriteString("{\"t\":\"beat\"}\n")
+			w.out.Flush()
+			w.mu.Unlock()
+		}
 		if c == nil || time.Since(start) < limit {
 			continue
 		}
